@@ -30,7 +30,7 @@ func init() {
 		ID:    "C06",
 		Level: "fault_enumeration",
 		Cases: func(tier string) int {
-			return forcedCells() + lifecycleCells(tier) + refusedCells(tier) + vlib.TierN(tier, 480, 120000)
+			return forcedCells() + lifecycleCells(tier) + refusedCells(tier) + randomCells(tier) + elapsedCells() + dynCells(tier)
 		},
 		Rule: "forced part (all 432 cells in both tiers): a message is parked at one of 6 points of its path {inside the subscriber decorator, received but not dispatched, dispatched but not started, inside the handler (gate), before publishing, before settlement} " +
 			"x {1,2,8} concurrent Close callers x subscriber {scripted, scripted that emits one more message from its Close(), scripted that ignores the context, scripted whose Close() waits until every delivered message is settled (like a broker client draining in-flight messages), GoChannel buffer 0, GoChannel buffer 4} x CloseTimeout {1 h, 30 ms with the handler held longer} " +
@@ -49,6 +49,12 @@ func init() {
 			"on the running idle router, right before Close with a handler inside an invocation (held at a gate)} (15 combinations that exist) x {1,2,8} concurrent Close callers x {scripted subscribers, one shared GoChannel}; 1..3 handlers, the duplicated name and the busy/idle state at Close are drawn per case; " +
 			"then the repeated Close and the late messages as above (a handler the router started for a refused registration gets one too). A call that is accepted instead of refused makes the case 'unreached'. " +
 			"random part: routers of 1..3 handlers, 1..10 messages, handlers of random duration, Close (1..3 callers) or Run-context cancel at a random moment, scripted or GoChannel subscribers. " +
+			"elapsed-timeout part (60 cells in both tiers, behind the random part): CloseTimeout {-1h, -1s, -1ns, 1ns, 1ms} (a negative value is accepted by RouterConfig.Validate and not replaced by setDefaults: the time-out has elapsed before Close is called) x {1,2,8} concurrent Close callers x {scripted subscribers, one shared GoChannel} x " +
+			"{an invocation held inside the handler function, an invocation parked before settlement} on a router of 1..3 handlers; Close is called while the invocation is held: every call has to return on its own (the invocation outlives CloseTimeout) and none may return nil while it is in progress; then the invocation is let go, Close is repeated and every subscription gets a late message. " +
+			"dynamic-handlers part (36 cells per round, 2 rounds quick / 8 rounds thorough): the set of handlers changes at run time: next to one long-lived handler, 3..8 bursts of 2..6 handlers are added to the running router (AddHandler + RunHandlers with a context of their own), half of them get a message, and all handlers of a burst end together " +
+			"{Handler.Stop on each, their subscriptions closed by the subscriber (scripted: Close() of each subscriber; GoChannel: Close() of the burst's own GoChannel), the context of their RunHandlers call cancelled} while 1..3 goroutines call Handler.AddMiddleware (bounded number of calls) on the long-lived and on the coming and going handlers, " +
+			"the long-lived handler carrying {0,50,400,1500} handler-level middlewares from before Run; x {1,2,8} concurrent Close callers x {scripted subscribers, GoChannel} x {the AddMiddleware goroutines have finished before Close, they keep calling while Close runs}; the long-lived handler is held inside an invocation at Close in about half of the cases; " +
+			"then the repeated Close and a late message for the long-lived handler. If the churn itself gets stuck (a handler that was told to end never reports Stopped()), the Close calls are made nevertheless and have to return. " +
 			"Oracle: each Close caller samples, right after Close returned nil, every emitted message: a message whose handler was entered must have left the handler and be settled; no handler entry stamp may be later than a nil-returning Close's return stamp; " +
 			"never-handled messages are never acked; every Close call and Run return (quiescence detector); with a handler held beyond CloseTimeout every call returns and none returns nil while it runs; Run does not return while a handler runs unless Close timed out; each handler's subscriber and publisher saw Close(). " +
 			"Non-trivial: the park point was reached and Close overlapped the parked message (forced) / Close overlapped at least one message in the pipeline (random). Distinct = (cell, outcome shape, hook fingerprint).",
@@ -58,6 +64,8 @@ func init() {
 			"30 ms CloseTimeout cases are judged only by what they must not do (return nil while a handler runs; hang): no upper bound on the measured duration",
 			"refused calls: what 'fails as documented' means is taken from the godoc (DuplicateHandlerNameError: 'is sent in a panic when you try to add a second handler with the same name') and from the errors Run ('router is already running') and RunHandlers ('you can't call RunHandlers on non-running router') return; the refusal itself is a precondition of the case, not a demand of the oracle; a refused call that has not returned when Close is called (AddHandler waiting for the router's lock) does not excuse a Close call that never returns",
 			"life-cycle corners: after a failed Run and for Close before Run nothing is demanded of Run's own result, and Close() on the subscribers/publishers is demanded only where Close found a router whose start-up succeeded (a Close that reports the time-out error promises nothing about handlers); which handler a failing start-up reaches first is decided by Go's map iteration, so the failed-Run set-up is repeated (at most 10 times) until a handler was started before the failing one",
+			"elapsed-timeout part: a negative CloseTimeout is a legal configuration (Validate accepts it, setDefaults replaces only 0) whose time-out has elapsed when Close is called; 'a Close call never returned' is concluded there only when the process is quiescent apart from the Close calls for the whole of a span in which five harness timers, armed later and due later than the CloseTimeout timer, have fired (bracketing by timers of the same runtime; anything else is inconclusive)",
+			"dynamic-handlers part: subscribers and publishers of handlers that ended before Close are not the router's any more, Close() is demanded on the ends of the long-lived handler only; Router.AddMiddleware (router level, documented for set-up time) is not called at run time, only Handler.AddMiddleware; nothing is demanded about whether a middleware added at run time takes effect",
 		},
 		Run: run,
 	})
@@ -73,8 +81,18 @@ func run(e *vlib.Env) vlib.Result {
 	if e.Idx < forcedCells()+lifecycleCells(e.Tier)+refusedCells(e.Tier) {
 		return lcRefused(e, e.Idx-forcedCells()-lifecycleCells(e.Tier))
 	}
-	return random(e)
+	base := forcedCells() + lifecycleCells(e.Tier) + refusedCells(e.Tier)
+	if e.Idx < base+randomCells(e.Tier) {
+		return random(e)
+	}
+	base += randomCells(e.Tier)
+	if e.Idx < base+elapsedCells() {
+		return elapsedTimeout(e, e.Idx-base)
+	}
+	return dynamicHandlers(e, e.Idx-base-elapsedCells())
 }
+
+func randomCells(tier string) int { return vlib.TierN(tier, 480, 120000) }
 
 type tracked struct {
 	uuid    string
